@@ -731,3 +731,108 @@ def field_reads(facts, adt, field=None, crates=('chess',), kinds=('lib',)):
             elif t['k'] == 'switch':
                 scan_op(f, b, t['discr'])
     return res
+
+
+SIZE_QUERIES = ('len', 'is_empty', 'capacity')
+
+
+def size_only_use(facts, f, adt, field):
+    """True when function f touches `adt.field` only to ask for its size: every use of the field is a shared borrow that flows (through
+    plain copies / reborrows) into nothing but calls of len / is_empty / capacity.  Such a reader can neither change what the container
+    holds nor hand out what it holds (statistics, Display impls)."""
+    refs = set()            # locals holding a shared reference to the field
+    for b in f.blocks:
+        if b['cleanup']:
+            continue
+        for s in b['stmts']:
+            if s['k'] != 'assign':
+                continue
+            hits = [1 for (a, fl) in _place_fields(s['place']) if a == adt and fl == field]
+            if hits:
+                return False                                   # assigned through
+            rv = s['rv']
+            if rv['k'] in ('ref', 'rawptr'):
+                pf = _place_fields(rv['place'])
+                if any(a == adt and fl == field for a, fl in pf):
+                    last = [p for p in rv['place'].get('proj', []) if isinstance(p, dict) and 'field' in p][-1]
+                    if rv.get('mut') or not (last['of'] == adt and last['field'] == field) or s['place'].get('proj'):
+                        return False                           # mutable borrow, or a borrow of something inside the field
+                    refs.add(s['place']['local'])
+    if not refs:
+        return False
+    changed = True
+    while changed:
+        changed = False
+        for b in f.blocks:
+            if b['cleanup']:
+                continue
+            for s in b['stmts']:
+                if s['k'] != 'assign' or s['place'].get('proj'):
+                    continue
+                rv = s['rv']
+                src = None
+                if rv['k'] == 'use' and rv['op'].get('k') in ('copy', 'move') and not rv['op']['place'].get('proj'):
+                    src = rv['op']['place']['local']
+                elif rv['k'] == 'ref' and not rv.get('mut') and [p for p in rv['place'].get('proj', [])] == ['deref']:
+                    src = rv['place']['local']
+                if src in refs and s['place']['local'] not in refs:
+                    refs.add(s['place']['local'])
+                    changed = True
+
+    def mentions(x):
+        if isinstance(x, dict):
+            if x.get('local') in refs and 'proj' in x:
+                return True
+            return any(mentions(v) for v in x.values())
+        if isinstance(x, list):
+            return any(mentions(v) for v in x)
+        return False
+    for b in f.blocks:
+        if b['cleanup']:
+            continue
+        for s in b['stmts']:
+            if s['k'] != 'assign':
+                continue
+            if not s['place'].get('proj') and s['place']['local'] in refs:
+                continue                                       # the definitions collected above
+            if mentions(s['rv']) or mentions(s['place']):
+                return False
+        t = b['term']
+        if t['k'] == 'call':
+            if any(mentions(a) for a in t['args']):
+                n = (facts.callee_name(t) or '').rsplit('::', 1)[-1]
+                if n not in SIZE_QUERIES:
+                    return False
+            if mentions(t.get('dest')):
+                return False
+        elif mentions({k: v for k, v in t.items() if k not in ('span',)}):
+            return False
+    # any direct operand use of the field (copy / move out of it, discriminant, switch) is not a size query
+    for f2, b2, fl in field_reads(facts, adt, field, crates=(f.crate,), kinds=(f.crate_kind,)):
+        if f2 is f:
+            blk = [x for x in f.blocks if x['id'] == b2][0]
+            for s in blk['stmts']:
+                if s['k'] == 'assign' and s['rv']['k'] in ('ref', 'rawptr'):
+                    continue
+                if s['k'] == 'assign' and any(a == adt and fl2 == field for op in _ops_of(s['rv']) for a, fl2 in _place_fields(op)):
+                    return False
+            t = blk['term']
+            if t['k'] == 'call' and any(o.get('k') in ('copy', 'move') and any(a == adt and fl2 == field for a, fl2 in _place_fields(o['place'])) for o in t['args']):
+                return False
+    return True
+
+
+def _ops_of(rv):
+    k = rv['k']
+    ops = []
+    if k in ('use', 'cast', 'repeat'):
+        ops = [rv['op']]
+    elif k == 'binop':
+        ops = [rv['a'], rv['b']]
+    elif k == 'unop':
+        ops = [rv['a']]
+    elif k == 'aggregate':
+        ops = rv['ops']
+    elif k == 'discr':
+        return [rv['place']]
+    return [o['place'] for o in ops if o.get('k') in ('copy', 'move')]
